@@ -154,8 +154,22 @@ def window_geometry(c, prog, nI_src, nX_src):
 
 def _hdr_witness(idx, env):
     # the k-th header of the plane lands at row*nXw + k
+    nXw = ops_binop('-', env['geom'].fields['xlines'].stop, env['geom'].fields['xlines'].start)
+    if len(idx) == 3:
+        return idx[0]
+    if not isinstance(env.get('i'), int):
+        # outer loop not unrolled (symbolic inline block extent): entry j belongs to window row j // nXw, i.e. to the outer iteration
+        # j // nXw - ps*b0 and the inner iteration j % nXw
+        return mod(idx[0], nXw)
     row = add(mul(env['plane_set_id'], env['blockshape'][0]), env['i'])
-    return sub(idx[0], mul(row, ops_binop('-', env['geom'].fields['xlines'].stop, env['geom'].fields['xlines'].start)))
+    return sub(idx[0], mul(row, nXw))
+
+
+def _io_outer_witness(idx, env):
+    if len(idx) == 3:
+        return idx[0]
+    nXw = ops_binop('-', env['geom'].fields['xlines'].stop, env['geom'].fields['xlines'].start)
+    return sub(fdiv(idx[0], nXw), mul(env['plane_set_id'], env['blockshape'][0]))
 
 
 class IoThreadFunc(ProducerContract):
@@ -224,17 +238,19 @@ class IoThreadFunc(ProducerContract):
 
 
 IO_KEY = 'conversion_utils.py::io_thread_func'
+IO_LOOPS = {(IO_KEY, 1): L.IndependentWrites(witness=_io_outer_witness, guarded_stores=True)}
+IO_LOOPS.update({(IO_KEY, k): L.IndependentWrites(witness=_hdr_witness, guarded_stores=True) for k in range(2, 40)})
 for _b0 in (4, 8):
     for _min in (False, True):
         _cls = type(f'IoThreadFunc_b{_b0}' + ('_min' if _min else ''), (IoThreadFunc,), dict(b0=_b0, minimal=_min, variant=f'b0={_b0}' + (',reduced-I/O reader' if _min else '')))
-        _cls.loops = {(IO_KEY, _b0 * 0 + k): L.IndependentWrites(witness=_hdr_witness) for k in range(1, 40)}
+        _cls.loops = IO_LOOPS
         fuc(IO_KEY, props=['C01', 'C04', 'C11'])(_cls)
 
 from .c_loader import THOROUGH      # noqa: E402
 IO_B0 = (4, 8, 16) if THOROUGH else (4, 8)
 if THOROUGH:
     _cls = type('IoThreadFunc_b16', (IoThreadFunc,), dict(b0=16, minimal=False, variant='b0=16'))
-    _cls.loops = {(IO_KEY, k): L.IndependentWrites(witness=_hdr_witness) for k in range(1, 40)}
+    _cls.loops = IO_LOOPS
     fuc(IO_KEY, props=['C01', 'C04', 'C11'])(_cls)
 
 
@@ -266,7 +282,7 @@ class IoThreadFuncModular(IoThreadFunc):
             whole = And(eq(geom.fields['ilines'].start, 0), eq(geom.fields['xlines'].start, 0), eq(nIw, nI_s),
                         eq(sub(geom.fields['xlines'].stop, geom.fields['xlines'].start), nX_s),
                         mk_bool(isinstance(rdr, SObj) and rdr.fields.get('segyfile') is seg))
-        return [mk_bool(isinstance(b0, int) and b0 in IO_B0),        # the body is verified for these inline block extents only
+        return [mk_bool(isinstance(b0, int) and b0 >= 4),        # the body is verified for a symbolic inline block extent (IoThreadFuncSym)
                 whole,
                 eq(a['planes_to_read'], Min(b0, sub(nIw, mul(b0, a['plane_set_id'])))), ge(a['planes_to_read'], 1),
                 mk_bool(isinstance(buf, SArray) and len(buf.shape) == 3) and eq(buf.shape[0], b0),
@@ -357,7 +373,7 @@ class SeismicFileProducer(ProducerContract):
         c.ensure(mk_bool(len(c.ghost.get('header_rows', [])) >= 1), 'plane_sets_filled_through_io_thread_func')
 
 
-register(SeismicFileProducer, 'conversion_utils.py::seismic_file_producer', ['C01', 'C11', 'C20'], [cf for cf in ALL3 if cf[1][0] in IO_B0], modes=('file',))
+register(SeismicFileProducer, 'conversion_utils.py::seismic_file_producer', ['C01', 'C11', 'C20'], ALL3, modes=('file',))
 
 
 class SelfTestAssumed(Contract):
@@ -385,7 +401,7 @@ class SeismicFileProducerRI(SeismicFileProducer):
     reduce_iops = True
 
 
-register(SeismicFileProducerRI, 'conversion_utils.py::seismic_file_producer', ['C01', 'C11', 'C20'], [cf for cf in CFG_DEFAULT[:2] + CFG_GENERAL[:2] if cf[1][0] in IO_B0], modes=('file',), tag='reduce_iops')
+register(SeismicFileProducerRI, 'conversion_utils.py::seismic_file_producer', ['C01', 'C11', 'C20'], CFG_DEFAULT[:2] + CFG_GENERAL[:2] + CFG_GENERAL[-2:], modes=('file',), tag='reduce_iops')
 
 
 
@@ -494,7 +510,7 @@ for _f in (5, 1, 2):
 # 2-D lines (C09): trace groups of blockshape[1] traces
 
 IO2_KEY = 'conversion_utils.py::io_thread_func_2d'
-IO_B1 = (4, 8, 16, 32) if THOROUGH else (4, 8, 16)
+IO_B1 = (4, 8, 16, 32) if THOROUGH else (4, 8)        # unrolled cross-check variants; the symbolic-extent variant covers every b1
 
 
 def src2(t, z):
@@ -502,6 +518,7 @@ def src2(t, z):
 
 
 class IoThreadFunc2d(ProducerContract):
+    # (loop table shared with the symbolic variant: set below)
     """buffer[i, z] = sample min(z, nZ-1) of source trace min(g*b1+i, nT-1); header array f: entry t = header f of source trace t
     for the real traces of the group, other entries untouched"""
     b1 = 4
@@ -562,7 +579,7 @@ class IoThreadFunc2dModular(IoThreadFunc2d):
         seg = a['seismicfile']
         nT = seg.fields['nT']
         buf = a['seismic_buffer']
-        return [mk_bool(isinstance(b1, int) and b1 in IO_B1),
+        return [mk_bool(isinstance(b1, int) and b1 >= 4),        # verified for a symbolic trace-group extent (IoThreadFunc2dSym)
                 eq(a['traces_to_read'], Min(b1, sub(nT, mul(b1, a['trace_group_id'])))), ge(a['traces_to_read'], 1),
                 mk_bool(isinstance(buf, SArray) and len(buf.shape) == 2) and eq(buf.shape[0], b1),
                 mk_bool(getattr(buf, 'fresh_zeros', False))]
@@ -673,7 +690,7 @@ class SeismicFileProducer2d(ProducerContract):
         c.ensure(mk_bool(len(c.ghost.get('header_rows', [])) >= 1), 'trace_groups_filled_through_io_thread_func_2d')
 
 
-register(SeismicFileProducer2d, 'conversion_utils.py::seismic_file_producer_2d', ['C09', 'C20'], [cf for cf in ALL2 if cf[1][1] in IO_B1], modes=('file',))
+register(SeismicFileProducer2d, 'conversion_utils.py::seismic_file_producer_2d', ['C09', 'C20'], ALL2, modes=('file',))
 
 
 # ---------------------------------------------------------------------------------------------
@@ -692,18 +709,23 @@ def mk_inferred_geom(c, prog, nI, nX, tracecount):
     max_il = add(min_il, mul(sub(nI, 1), il_step)); max_xl = add(min_xl, mul(sub(nX, 1), xl_step))
     tr = SObj(None, clsname='$tracesref')
     tr.fields.update(grid=(min_il, il_step, nI, min_xl, xl_step, nX), tracecount=tracecount)
+    ilr, xlr = SRange(min_il, add(max_il, 1), il_step), SRange(min_xl, add(max_xl, 1), xl_step)
+    # LEMMA-RANGE-LEN: range(a, a + (n-1)*s + 1, s) has n elements for n >= 1, s >= 1   (((n-1)*s + 1 + s - 1) // s = n)
+    ilr.known_len, xlr.known_len = nI, nX
+    cur().ex.__dict__.setdefault('axioms', set()).add('LEMMA-RANGE-LEN')
     geom = SObj(prog.klass('InferredGeometry3d'), dict(
-        ilines=SRange(min_il, add(max_il, 1), il_step), xlines=SRange(min_xl, add(max_xl, 1), xl_step),
+        ilines=ilr, xlines=xlr,
         min_il=min_il, max_il=max_il, il_step=il_step, min_xl=min_xl, max_xl=max_xl, xl_step=xl_step, traces_ref=tr))
     return geom
 
 
 def present_at(tr, ilno, xlno):
-    """(ilno, xlno) in traces_ref: only grid positions can carry a trace"""
+    """(ilno, xlno) in traces_ref: only line numbers inside the bounding box of the survey can carry a trace
+    (min / max of the line numbers present: InferredGeometry3d.__init__ / GetRange contract)"""
     min_il, il_step, nI, min_xl, xl_step, nX = tr.fields['grid']
-    ri, rx = sub(ilno, min_il), sub(xlno, min_xl)
-    in_grid = And(ge(ri, 0), eq(mod(ri, il_step), 0), lt(fdiv(ri, il_step), nI), ge(rx, 0), eq(mod(rx, xl_step), 0), lt(fdiv(rx, xl_step), nX))
-    return And(in_grid, mk_bool(PRESENT(zint(ilno), zint(xlno))))
+    max_il = add(min_il, mul(sub(nI, 1), il_step)); max_xl = add(min_xl, mul(sub(nX, 1), xl_step))
+    in_box = And(ge(ilno, min_il), le(ilno, max_il), ge(xlno, min_xl), le(xlno, max_xl))
+    return And(in_box, mk_bool(PRESENT(zint(ilno), zint(xlno))))
 
 
 def tid_of(tr, ilno, xlno):
@@ -735,11 +757,22 @@ from pyvc.values import PyRaise      # noqa: E402
 
 
 def _uwit(idx, env):
+    """inner loop (over the crosslines of the grid): buffer position -> its crossline index; header entry j -> j % nX (or, with the outer
+    loop unrolled, j - row*nX)"""
     if len(idx) == 3:
         return idx[1]
+    nX = env['geom'].fields['xlines'].length()
+    if not isinstance(env.get('i'), int):
+        return mod(idx[0], nX)
     row = add(mul(env['plane_set_id'], env['blockshape'][0]), env['i'])
-    nX = env['geom'].fields['xlines'].length() if hasattr(env['geom'].fields['xlines'], 'length') else None
     return sub(idx[0], mul(row, nX))
+
+
+def _uwit_outer(idx, env):
+    if len(idx) == 3:
+        return idx[0]
+    nX = env['geom'].fields['xlines'].length()
+    return sub(fdiv(idx[0], nX), mul(env['plane_set_id'], env['blockshape'][0]))
 
 
 class UnstructuredIoThreadFunc(ProducerContract):
@@ -798,9 +831,11 @@ class UnstructuredIoThreadFunc(ProducerContract):
                 c.ensure(Implies(And(Not(here), lt(r, nI)), eq(arr.fn((j,)), a['_old'][f]((j,)))), f'header{f}.row{i}.hole_entry_untouched')
 
 
+UIO_LOOPS = {(UIO_KEY, 1): L.IndependentWrites(witness=_uwit_outer, guarded_stores=True)}
+UIO_LOOPS.update({(UIO_KEY, k): L.IndependentWrites(witness=_uwit, guarded_stores=True) for k in range(2, 60)})
 for _b0 in (4, 8):
     _cls = type(f'UnstructuredIoThreadFunc_b{_b0}', (UnstructuredIoThreadFunc,), dict(b0=_b0, variant=f'b0={_b0}'))
-    _cls.loops = {(UIO_KEY, k): L.IndependentWrites(witness=_uwit, guarded_stores=True) for k in range(1, 60)}
+    _cls.loops = UIO_LOOPS
     fuc(UIO_KEY, props=['C08', 'C04'])(_cls)
 
 
@@ -815,7 +850,7 @@ class UnstructuredIoModular(UnstructuredIoThreadFunc):
     def pre(self, c, a):
         b0 = a['blockshape'][0]
         buf = a['segy_buffer']
-        return [mk_bool(isinstance(b0, int) and b0 in (4, 8)), mk_bool(isinstance(buf, SArray) and len(buf.shape) == 3) and eq(buf.shape[0], b0),
+        return [mk_bool(isinstance(b0, int) and b0 >= 4), mk_bool(isinstance(buf, SArray) and len(buf.shape) == 3) and eq(buf.shape[0], b0),
                 mk_bool(getattr(buf, 'fresh_zeros', False)), ge(a['plane_set_id'], 0)]
 
     def fresh_result(self, c, a):
@@ -902,4 +937,165 @@ class SeismicFileProducerIrregular(SeismicFileProducer):
             c.ensure(mk_bool(ok) and eq(arr.shape[0], mul(nI, nX)), f'headers_dict[{k}].one_int32_entry_per_grid_position')
 
 
-register(SeismicFileProducerIrregular, 'conversion_utils.py::seismic_file_producer', ['C08'], [cf for cf in CFG_DEFAULT[:3] + CFG_GENERAL[:3] if cf[1][0] in (4, 8)], modes=('file',), tag='irregular')
+register(SeismicFileProducerIrregular, 'conversion_utils.py::seismic_file_producer', ['C08'], CFG_DEFAULT[:3] + CFG_GENERAL[:3] + CFG_GENERAL[-2:] + CFG_ZSLICE[:1], modes=('file',), tag='irregular')
+
+
+# ---------------------------------------------------------------------------------------------
+# io_thread_func for EVERY inline block extent: the outer loop as an independent-iterations loop (guarded stores by if-conversion)
+
+def _io_sym_witness(idx, env):
+    """who writes position idx?  buffer (3-D): the iteration of its first index.  header array (1-D): entry j belongs to window row j // nXw,
+    i.e. outer iteration j // nXw - ps*b0, inner iteration j % nXw"""
+    if len(idx) == 3:
+        return idx[0]
+    geom = env['geom']
+    nXw = sub(geom.fields['xlines'].stop, geom.fields['xlines'].start)
+    row = fdiv(idx[0], nXw)
+    return (sub(row, mul(env['plane_set_id'], env['blockshape'][0])), mod(idx[0], nXw))
+
+
+class IoThreadFuncSym(IoThreadFunc):
+    """same contract as IoThreadFunc, for a SYMBOLIC inline block extent b0 >= 4 (no unrolling)"""
+    variant = 'any b0'
+    minimal = False
+
+    def inputs(self, c):
+        b0 = c.sym_int('b0', lo=4, name='blockshape[0]')
+        self._b0 = b0
+        old = type(self).b0
+        try:
+            type(self).b0 = b0
+            d = IoThreadFunc.inputs(self, c)
+        finally:
+            type(self).b0 = old
+        d['_b0'] = b0
+        return d
+
+    def post(self, c, a, result):
+        il0, xl0, nIw, nXw = a['_w']
+        nI, nX, nZ = a['_src']
+        P1, P2 = a['_P']
+        b0 = a['_b0']
+        ps = a['plane_set_id']
+        buf = a['seismic_buffer']
+        e = O.skolem_index(c, (b0, P1, P2), base='be')
+        row = Min(add(mul(b0, ps), e[0]), sub(nIw, 1))
+        want = MX.src(add(il0, row), add(xl0, Min(e[1], sub(nXw, 1))), Min(e[2], sub(nZ, 1)))
+        c.ensure(buf.fn(e) == want, 'buffer_is_the_edge_replicated_window')
+        x = c.sym_int('hx', lo=0, name='header_crossline_in_window')
+        c.assume(lt(x, nXw))
+        ptr = a['planes_to_read']
+        i = c.sym_int('hi', lo=0, name='plane_in_set')
+        c.assume(lt(i, ptr))
+        for f in self.FIELDS:
+            arr = a['headers_dict'][f]
+            r = add(mul(b0, ps), i)
+            got = arr.fn((add(mul(r, nXw), x),))
+            srct = add(mul(add(il0, r), nX), add(xl0, x))
+            c.ensure(eq(got, MX.hsrc(srct, f)), f'header{f}.entry_is_the_source_header_of_that_trace')
+            j = c.sym_int(f'hj{f}', lo=0, name='header_array_index')
+            c.assume(lt(j, mul(nIw, nXw)), Or(lt(j, mul(mul(b0, ps), nXw)), ge(j, mul(add(mul(b0, ps), ptr), nXw))))
+            c.ensure(eq(arr.fn((j,)), a['_old'][f]((j,))), f'header{f}.entries_of_other_rows_untouched')
+
+
+IoThreadFuncSym.loops = IO_LOOPS
+fuc(IO_KEY, props=['C01', 'C04', 'C11'])(IoThreadFuncSym)
+fuc(IO_KEY, props=['C01', 'C04'])(type('IoThreadFuncSymMin', (IoThreadFuncSym,), dict(minimal=True, variant='any b0,reduced-I/O reader')))
+
+
+def _io2_witness(idx, env):
+    if len(idx) == 2:
+        return idx[0]
+    return sub(idx[0], mul(env['trace_group_id'], env['blockshape'][1]))
+
+
+IO2_LOOPS = {(IO2_KEY, 1): L.IndependentWrites(witness=_io2_witness, guarded_stores=True)}
+
+
+class IoThreadFunc2dSym(IoThreadFunc2d):
+    """io_thread_func_2d for a SYMBOLIC trace-group extent b1 >= 4 (outer loop as independent iterations with guarded stores)"""
+    variant = 'any b1'
+    loops = IO2_LOOPS
+
+    def inputs(self, c):
+        b1 = c.sym_int('b1', lo=4, name='blockshape[1]')
+        old = type(self).b1
+        try:
+            type(self).b1 = b1
+            d = IoThreadFunc2d.inputs(self, c)
+        finally:
+            type(self).b1 = old
+        d['_b1'] = b1
+        return d
+
+    def post(self, c, a, result):
+        nT, nZ = a['_n']
+        b1 = a['_b1']
+        g = a['trace_group_id']
+        buf = a['seismic_buffer']
+        e = O.skolem_index(c, (b1, a['_P2']), base='be')
+        want = src2(Min(add(mul(b1, g), e[0]), sub(nT, 1)), Min(e[1], sub(nZ, 1)))
+        c.ensure(buf.fn(e) == want, 'buffer_is_the_edge_replicated_trace_group')
+        ttr = a['traces_to_read']
+        i = c.sym_int('hi', lo=0, name='trace_in_group')
+        c.assume(lt(i, ttr))
+        for f in self.FIELDS:
+            arr = a['headers_dict'][f]
+            t = add(mul(b1, g), i)
+            c.ensure(eq(arr.fn((t,)), MX.hsrc(t, f)), f'header{f}.entry_is_the_source_header_of_that_trace')
+            j = c.sym_int(f'hj{f}', lo=0, name='header_array_index')
+            c.assume(lt(j, nT), Or(lt(j, mul(b1, g)), ge(j, add(mul(b1, g), ttr))))
+            c.ensure(eq(arr.fn((j,)), a['_old'][f]((j,))), f'header{f}.entries_of_other_traces_untouched')
+
+
+fuc(IO2_KEY, props=['C09', 'C04'])(IoThreadFunc2dSym)
+
+
+
+class UnstructuredIoThreadFuncSym(UnstructuredIoThreadFunc):
+    """unstructured_io_thread_func for a SYMBOLIC inline block extent (both loops as independent iterations, presence test if-converted)"""
+    variant = 'any b0'
+    loops = UIO_LOOPS
+
+    def inputs(self, c):
+        b0 = c.sym_int('b0', lo=4, name='blockshape[0]')
+        old = type(self).b0
+        try:
+            type(self).b0 = b0
+            d = UnstructuredIoThreadFunc.inputs(self, c)
+        finally:
+            type(self).b0 = old
+        d['_b0'] = b0
+        return d
+
+    def post(self, c, a, result):
+        nI, nX, nZ = a['_n']
+        P1, P2 = a['_P']
+        b0 = a['_b0']
+        ps = a['plane_set_id']
+        geom = a['geom']
+        tr = geom.fields['traces_ref']
+        G = geom.fields
+        buf = a['segy_buffer']
+        e = O.skolem_index(c, (b0, P1, P2), base='be')
+        row = add(mul(b0, ps), e[0])
+        ilno = add(G['min_il'], mul(row, G['il_step'])); xlno = add(G['min_xl'], mul(e[1], G['xl_step']))
+        has = And(lt(e[1], nX), present_at(tr, ilno, xlno))
+        got = buf.fn(e)
+        c.ensure(Implies(And(has, lt(e[2], nZ)), got == MX.src(0, tid_of(tr, ilno, xlno), e[2])), 'buffer.populated_position_holds_its_source_trace')
+        c.ensure(Implies(Not(And(has, lt(e[2], nZ))), got == F32Z), 'buffer.holes_and_padding_are_zero')
+        x = c.sym_int('hx', lo=0, name='grid_crossline_index')
+        i = c.sym_int('hi', lo=0, name='plane_in_set')
+        c.assume(lt(x, nX), lt(i, b0))
+        r = add(mul(b0, ps), i)
+        c.assume(lt(r, nI))
+        for f in self.FIELDS:
+            arr = a['headers_dict'][f]
+            iln = add(G['min_il'], mul(r, G['il_step'])); xln = add(G['min_xl'], mul(x, G['xl_step']))
+            j = add(mul(r, nX), x)
+            here = present_at(tr, iln, xln)
+            c.ensure(Implies(here, eq(arr.fn((j,)), MX.hsrc(tid_of(tr, iln, xln), f))), f'header{f}.populated_entry_is_the_header_of_its_trace')
+            c.ensure(Implies(Not(here), eq(arr.fn((j,)), a['_old'][f]((j,)))), f'header{f}.hole_entry_untouched')
+
+
+fuc(UIO_KEY, props=['C08', 'C04'])(UnstructuredIoThreadFuncSym)
